@@ -49,6 +49,7 @@ FieldCases(f, p, nb) ==
      \o SetToSeq(un("fp.dbl", 0)) \o SetToSeq(un("fp.dbl", 1)) \o SetToSeq(un("fp.neg", 0)) \o SetToSeq(un("fp.neg", 1))
      \o SetToSeq(un("fp.sqr", 0)) \o SetToSeq(un("fp.sqr", 1)) \o SetToSeq(un("fp.mul", 3))
      \o SetToSeq(un("fp.inv", 0)) \o SetToSeq(un("fp.inv", 1)) \o SetToSeq(un("fp.get", 0))
+     \o SetToSeq(un("fp.copy", 0)) \o SetToSeq(un("fp.copy", 1)) \o SetToSeq(un("fp.inv_m", 0)) \o SetToSeq(un("fp.inv_m", 1))
      \o SetToSeq(un("fp.legendre", 0)) \o SetToSeq(un("fp.is_zero", 0)) \o SetToSeq(un("fp.is_one", 0)) \o SetToSeq(un("fp.writebe", 0))
      \o SetToSeq({ [op |-> "fp.sqrt", f |-> f, a |-> LE(MulMod(x, x, p), nb), alias |-> 0, src |-> "gen"] : x \in fam })
      \o SetToSeq({ [op |-> "fp.exp", f |-> f, a |-> LE(x, nb), e |-> LE(e, nb), alias |-> al, src |-> "gen"] :
@@ -84,6 +85,14 @@ RawCases ==
      \o SetToSeq({ [op |-> "raw.mul", impl |-> im, a |-> LE(x[1], 48), b |-> LE(x[2], 48), src |-> "gen"] : im \in Impls, x \in RawFam \X RawFam })
      \o SetToSeq({ [op |-> "raw.sqr", impl |-> im, a |-> LE(x, 48), src |-> "gen"] : im \in Impls, x \in RawFam \cup fam })
      \o SetToSeq({ [op |-> "raw.redc", impl |-> im, w |-> LE(x, 96), p |-> LE(p, 48), inv |-> LE(inv, 48), src |-> "gen"] : im \in Impls, x \in wide })
+     \o SetToSeq({ [op |-> o, a |-> LE(x, 48), alias |-> al, src |-> "gen"] : o \in {"raw.copy", "raw.shr1", "raw.divdword", "raw.divword"}, x \in RawFam, al \in {0, 1} })
+     \o SetToSeq({ [op |-> o, a |-> LE(x, 48), amt |-> k, alias |-> al, src |-> "gen"] :
+                   o \in {"raw.shr", "raw.shl"}, x \in {Sub(Pow2(384), One), p, Sub(Pow2(383), One), Add(Pow2(320), Pow2(63))},
+                   k \in {0, 1, 31, 32, 33, 63, 64, 65, 127, 128, 200, 256, 319, 320, 383}, al \in {0, 1} })
+     \o SetToSeq({ [op |-> "raw.fpneg", a |-> LE(x, 48), p |-> LE(p, 48), alias |-> al, src |-> "gen"] : x \in fam, al \in {0, 1} })
+     \o SetToSeq({ [op |-> "raw.fpmul", a |-> LE(x[1], 48), b |-> LE(x[2], 48), p |-> LE(p, 48), inv |-> LE(inv, 48), alias |-> al, src |-> "gen"] :
+                   x \in BWCore(p, 48) \X BWCore(p, 48), al \in 0..3 })
+     \o SetToSeq({ [op |-> "raw.fpsqr", a |-> LE(x, 48), p |-> LE(p, 48), inv |-> LE(inv, 48), alias |-> al, src |-> "gen"] : x \in fam, al \in {0, 1} })
      \o << [op |-> "raw.dispatch", src |-> "gen"] >>
 
 Cases == FieldCases("fq", QMod, 48) \o FieldCases("fr", RMod, 32) \o RawCases
